@@ -41,6 +41,30 @@ func (fr *Frame) applyContract(s *State, c *Contract, callee *types.Func, recv *
 		side = side[:0]
 		fr.vc.oblige(s, "pre", t, pos, fmt.Sprintf("precondition %d of %s: %s", i+1, c.Key, r.Text))
 	}
+	if c.Function != nil {
+		// the result is a term over the arguments and the current heap: nothing fresh, nothing changes
+		v := env.eval(c.Function.E)
+		if env.err != nil {
+			fr.vc.failed = fmt.Errorf("contract %s: function %q: %v", c.Key, c.Function.Text, env.err)
+			return fr.freshResults(s, sig.Results())
+		}
+		for _, f := range side {
+			s.assume(f)
+		}
+		res := &Val{T: sig.Results().At(0).Type(), S: v.S}
+		names[resNames[0]] = res
+		names["result"] = res
+		env2 := &SpecEnv{eng: fr.eng, vc: fr.vc, s: s, old: s, names: names, pkg: cpkg, side: &side, fr: fr}
+		for _, r := range c.Ensures {
+			t := env2.evalBool(r.E)
+			if env2.err != nil {
+				fr.vc.failed = fmt.Errorf("contract %s: ensures %q: %v", c.Key, r.Text, env2.err)
+				return []*Val{res}
+			}
+			s.assume(t)
+		}
+		return []*Val{res}
+	}
 	pre := s.clone()
 	// frame
 	if c.Pure || (c.HasFrame && len(c.Assigns) == 0) {
@@ -504,6 +528,18 @@ func (e *Engine) verifyFunc(c *Contract) *VC {
 		renv := &SpecEnv{eng: e, vc: vc, s: r.s, old: fr.entry, names: rnames, pkg: fr.pkg, fr: fr}
 		var side2 []string
 		renv.side = &side2
+		if c.Function != nil && len(r.vals) > 0 {
+			fv := renv.eval(c.Function.E)
+			if renv.err != nil {
+				vc.failed = fmt.Errorf("%s: function %q: %v", c.Key, c.Function.Text, renv.err)
+				return vc
+			}
+			for _, f := range side2 {
+				r.s.assume(f)
+			}
+			side2 = side2[:0]
+			vc.oblige(r.s, "post-function.ret", eq(r.vals[0].S, fv.S), fi.Decl.Pos(), fmt.Sprintf("result of %s equals its defining expression %s at return %d", c.Key, c.Function.Text, ri+1))
+		}
 		if len(c.Ensures) > 0 {
 			vc.cover(r.s, fmt.Sprintf("cover-ret%d.", ri+1), "true", fi.Decl.Pos(), fmt.Sprintf("return %d of %s is reachable", ri+1, c.Key))
 		}
